@@ -68,7 +68,7 @@ TIERS = {
         "soft_s": 700,
         "ops_random": 60000,
         "pairs": 7000,
-        "programs": 520,
+        "programs": 330,
         "exh_exprs": True,
     },
 }
